@@ -55,10 +55,18 @@ def find_return_stmts_recursive(stmts: list[mp_nodes.Statement] | list[mp_nodes.
         elif isinstance(stmt, mp_nodes.TryStmt):
             return_stmts += find_return_stmts_recursive([stmt.body])
             return_stmts += find_return_stmts_recursive(stmt.handlers)
+            # The "else" and the "finally" clause can return, too
+            if stmt.else_body:
+                return_stmts += find_return_stmts_recursive([stmt.else_body])
+            if stmt.finally_body:
+                return_stmts += find_return_stmts_recursive([stmt.finally_body])
         elif isinstance(stmt, mp_nodes.MatchStmt):
             return_stmts += find_return_stmts_recursive(stmt.bodies)
         elif isinstance(stmt, mp_nodes.WhileStmt | mp_nodes.WithStmt | mp_nodes.ForStmt):
             return_stmts += find_return_stmts_recursive(stmt.body.body)
+            # ... and so can the "else" clause of a loop
+            if not isinstance(stmt, mp_nodes.WithStmt) and stmt.else_body:
+                return_stmts += find_return_stmts_recursive([stmt.else_body])
         elif isinstance(stmt, mp_nodes.ReturnStmt):
             return_stmts.append(stmt)
 
